@@ -243,6 +243,7 @@ CONFIGS = {
     # name: (path_in, path_out, extra kwargs, aliasing?)
     "plain": ("/data/in.rtdc", "/data/out.rtdc", {}, False),
     "suffix appended": ("/data/in.rtdc", "/data/out", {}, False),
+    "suffix appended to a dotted name": ("/data/in.rtdc", "/data/out.v2", {}, False),
     "output is the input": ("/data/in.rtdc", "/data/in.rtdc", {}, True),
     "output becomes the input once the suffix is appended": ("/data/in.rtdc", "/data/in", {}, True),
     "temporary name is the input": ("/data/x.rtdc~", "/data/x.rtdc", {"check_suffix": False}, True),
@@ -686,6 +687,7 @@ def _scenarios_for(unit_name):
     if base in ("compress", "repack", "condense"):
         cfg = unit_name[unit_name.index("[") + 1:-1]
         return {"plain": [base, base + ":stale"], "suffix appended": [base + ":nosuffix"],
+                "suffix appended to a dotted name": [base + ":nosuffix"],
                 "output is the input": [base + ":alias"],
                 "output becomes the input once the suffix is appended": [base + ":alias-nosuffix"],
                 "temporary name is the input": [base + ":alias-temp"]}[cfg]
